@@ -127,6 +127,10 @@ class Model:
         )
 
     def cid_of_spec(self, spec):
+        if spec[0] == "returned":
+            # the cid a store_object of that content must have reported (documented manual procedure:
+            # tag_object(pid, obj_info.cid)); the harness passes what the real call returned
+            return self.layout.cid_of(self.contents[spec[1]])
         if spec[0] == "of":
             return self.layout.cid_of(self.contents[spec[1]])
         if spec[0] == "fake":
